@@ -3,7 +3,8 @@ EXTENDS Reader, Json
 \* every maximal operation history of the bound, with the values the specification says are returned
 \* model-checking economy only: histories with two data probes in a row, or with more than one failing
 \* rewind / data probe on a non-recording reader, add nothing
-Useful == /\ \A i \in 1..(Len(log) - 1) : ~(log[i].op = "data" /\ log[i+1].op = "data")
+Useful == /\ (~opened => Len(log) <= 2)      \* at most two reads before open()
+          /\ \A i \in 1..(Len(log) - 1) : ~(log[i].op = "data" /\ log[i+1].op = "data")
           /\ (~c.rec => Cardinality({i \in 1..Len(log) : log[i].op = "rewind"}) <= 1 /\ Cardinality({i \in 1..Len(log) : log[i].op = "data"}) <= 1)
-Export == (Len(log) = MaxOps) => PrintT(ToJson([c |-> c, log |-> log]))
+Export == (Len(log) = MaxOps) => PrintT(ToJson([c |-> c, log |-> log, closed |-> ~opened]))
 =========================================================================
